@@ -58,7 +58,7 @@ DESTS = {"v4": ("v4", "9.9.9.9", 99), "v6": ("v6", "2001:db8::9", 99), "dom": ("
 QUICK_SIZES = [0, 1, 22, 23, 24, 279, 1000, 1400]
 MASKS = (0x01, 0x80)
 HEADER_MASKS_THOROUGH = (0x01, 0x02, 0x04, 0x08, 0x10, 0x20, 0x40, 0x80, 0xFF)
-FOREIGN_VARIANTS = ("layers", "one-layer", "plainflag", "rawbody", "unknown-cid", "own-direction-swapped")
+FOREIGN_VARIANTS = ("layers", "one-layer", "plainflag", "rawbody", "unknown-cid")
 OVH = len(generate_session_keys(b"\x00" * 64).encrypt_str(b"", FORWARD))   # bytes one layer adds (nonce + tag)
 
 # The relay_early byte is link-level metadata that no key authenticates (it only meters EXTEND cells): flipping it
@@ -113,6 +113,7 @@ class Bench:
         self.salt = seed
         self.w = w = TunnelWorld(("c04", seed, h), ROLES, community_cls=RecTunnel, key_offset=seed % 8)
         self.urandom_log: list[bytes] = []
+        self.last_held_len = -1
         self._orig_read = seams.URANDOM.read
         seams.URANDOM.read = self._recording_read
         try:
@@ -460,11 +461,6 @@ class Bench:
                 body = msg
                 for i in range(layers):
                     body = self.foreign_keys[i].encrypt_str(body, dirn)
-            elif var == "own-direction-swapped":
-                # the genuine layers, but produced with the keys of the opposite direction (harness-held key copies)
-                body = msg
-                for k in reversed(self.okeys["A"][link:]):
-                    body = _encrypt_with_copy(k, body, BACKWARD if leg == "f" else FORWARD)
             else:
                 raise HarnessError(var)
             data = ref.make_cell(self.prefix, cid, body, plain)
@@ -490,6 +486,9 @@ class Bench:
         if kind == "test" and leg == "b":
             data = self.test_response_data(fl)
             fl.pt["b"] = ref.msg_test_response(fl.ident, data if data is not None else b"")
+        self.last_held_len = len(held.data)
+        if fault[0] == "xor" and fault[1] >= len(held.data):
+            raise HarnessError(f"xor position {fault[1]} beyond the {len(held.data)}-byte cell")
         n0, bad0 = self.deliveries(fl)
         if n0 or bad0:
             return [(f"harness:early-delivery|{kind}:{leg}", f"delivered before the held cell arrived: {bad0}")], "x"
@@ -536,20 +535,6 @@ class Bench:
                       f"completed the flow {n2 - n1} more time(s), expected once"))
         v.extend(self.loop_exceptions(tag, f"after-{fclass}|{leg}"))
         return v, outcome
-
-
-def _encrypt_with_copy(keys, data: bytes, direction: int) -> bytes:  # noqa: ANN001
-    """encrypt_str advances the nonce counter of the key object: never call it on live keys, the harness would
-    perturb the nodes.  This produces the same layer with an independent AEAD implementation where available, else
-    with the foreign-key fallback (then the variant degenerates to 'layers')."""
-    try:
-        from cryptography.hazmat.primitives.ciphers.aead import ChaCha20Poly1305
-    except ImportError:  # pragma: no cover
-        return generate_session_keys(b"\xEE" * 64).encrypt_str(data, direction)
-    key = keys.key_forward if direction == FORWARD else keys.key_backward
-    salt = keys.salt_forward if direction == FORWARD else keys.salt_backward
-    explicit = (0xC04C04C04).to_bytes(8, "big")
-    return explicit + ChaCha20Poly1305(key).encrypt(salt + explicit, data, None)
 
 
 # ---- enumeration ----------------------------------------------------------------------------------------------------
@@ -670,15 +655,28 @@ def work(chunk: list) -> list:
 def run_item(h: int, gs: list, seed: int, thorough: bool) -> dict:
     out = {"evals": 0, "by_class": {}, "outcomes": set(), "viols": {}, "aborted": 0, "samples": [], "positions": 0}
     bench = None
+
+    def note(v: list, case: list) -> None:
+        for key, what in v:
+            if key not in out["viols"]:
+                out["viols"][key] = (what, {"h": h, "seed": seed, "case": case})
+
     try:
-        for g in gs:
+        for gi, g in enumerate(gs):
             faults = expand(g, thorough)
             fclass = g[6]
             bad_cases = 0
             for fault in faults:
                 case = [g[1], g[2], g[3], g[4], g[5], fault]
                 if bench is None:
-                    bench = Bench(h, seed)
+                    try:
+                        bench = Bench(h, seed)
+                    except Exception as e:  # noqa: BLE001
+                        # no ready circuit / no clean delivery at all: everything in this bin would fail the same way
+                        note([_build_failure(h, e)], case)
+                        out["evals"] += 1
+                        out["aborted"] += len(gs) - gi
+                        return out
                 try:
                     v, outcome = bench.run_case(case)
                 except Exception as e:  # noqa: BLE001
@@ -692,16 +690,18 @@ def run_item(h: int, gs: list, seed: int, thorough: bool) -> dict:
                 out["outcomes"].add((h, g[1], g[4], g[5], ck, outcome))
                 if v:
                     bad_cases += 1
-                    for key, what in v:
-                        if key not in out["viols"]:
-                            out["viols"][key] = (what, {"h": h, "seed": seed, "case": case})
+                    note(v, case)
                     bench.close()      # never let a damaged world colour later cases
                     bench = None
                     if bad_cases >= MAX_BAD_PER_GROUP:
                         out["aborted"] += 1
                         break
             if fclass == "xor":
-                out["positions"] += cell_len(*g[:1], g[1], g[4], g[5], g[2], g[3])
+                n = cell_len(h, g[1], g[4], g[5], g[2], g[3])
+                out["positions"] += n
+                if bench is not None and bench.last_held_len != n:
+                    note([("harness:cell-length-model", f"group {g}: cells are {bench.last_held_len} bytes, the "
+                           f"enumeration assumed {n}")], [g[1], g[2], g[3], g[4], g[5], ["xor", 0, 1]])
             if len(out["samples"]) < 2:
                 out["samples"].append({"h": h, "group": g, "cases": len(faults)})
     finally:
@@ -710,13 +710,22 @@ def run_item(h: int, gs: list, seed: int, thorough: bool) -> dict:
     return out
 
 
+def _build_failure(h: int, e: Exception) -> tuple:
+    if isinstance(e, HarnessError):
+        return (f"clean:no-working-circuit|h{h}", f"fault-free set-up failed: {e}")
+    return (f"harness-exception|{type(e).__name__}|setup", f"h={h}: {traceback.format_exc()[-900:]}")
+
+
 def _self_check(seed: int) -> None:
     """Same cases in two fresh worlds must give the same observations (else the machinery is broken: exit 2)."""
     cases = [["data", 24, "v4", "f", 0, None], ["reply", 279, "v4", "b", 1, ["xor", 40, 0x80]],
              ["ping", 0, "v4", "b", 0, ["splice", "B"]], ["test", 23, "v4", "f", 1, ["foreign", "plainflag"]]]
     obs = []
     for _ in range(2):
-        b = Bench(2, seed)
+        try:
+            b = Bench(2, seed)
+        except HarnessError:
+            return      # the workers will report the broken set-up as a violation
         try:
             obs.append([(repr(sorted(k for k, _ in v)), o) for v, o in (b.run_case(c) for c in cases)])
         finally:
@@ -760,7 +769,7 @@ def run(ctx: core.Ctx) -> core.Report:
                 "complete oracle or with exactly one fault applied to the cell in flight on one link of one leg, "
                 "followed by the untouched original; faults = every byte position of the cell XOR each mask, drop/add "
                 "one trailing byte, circuit-id splice onto a second circuit of the same originator (B) and of another "
-                "originator (C) through the same nodes, six kinds of foreign cells, reflection to the sender, replay "
+                "originator (C) through the same nodes, five kinds of foreign cells, reflection to the sender, replay "
                 "on another link; distinct_nontrivial = distinct (hops, flow, leg, link, fault class, outcome) tuples "
                 "where outcome is delivered-N / dropped-after-N-hops / accepted-intact(relay_early byte)",
         "samples": [s for r in res[:2] for s in r["samples"]][:3] or [{"groups": len(gs)}],
@@ -809,7 +818,11 @@ def _case_rank(rp: dict) -> tuple:
 def replay(ctx: core.Ctx, data) -> list:  # noqa: ANN001
     if not data:
         return []
-    b = Bench(int(data["h"]), int(data["seed"]))
+    try:
+        b = Bench(int(data["h"]), int(data["seed"]))
+    except Exception as e:  # noqa: BLE001
+        k, w = _build_failure(int(data["h"]), e)
+        return [core.Violation(k, w)]
     try:
         try:
             v, _ = b.run_case(data["case"])
